@@ -97,6 +97,7 @@ package s2
 //@   modifies s.cells, s.cellMap, s.pendingRemovals, s.pendingAdditionsPos, s.status
 //@   ensures [SI] vcSI(s) && s.status == fresh && !vcHeld(&s.mu)
 //@   ensures [ids] s.nextID == old(s.nextID)
+//@   ensures [fresh-noop] old(s.status) == fresh ==> vcSame(s.cells, old(s.cells)) && vcSame(s.cellMap, old(s.cellMap))
 
 //@ func (s *ShapeIndex) Build()
 //@   requires vcSI(s) && !vcHeld(&s.mu)
@@ -106,12 +107,14 @@ package s2
 //@ func NewShapeIndexIterator(index *ShapeIndex, pos ...ShapeIndexIteratorPos) *ShapeIndexIterator
 //@   assumed "iterator construction is verified under C06; here only: returns a fresh iterator and does not change the index"
 //@   requires index != nil
-//@   ensures result != nil && vcFresh(result)
+//@   ensures result != nil && vcFresh(result) && result.index == index
 
 //@ func (s *ShapeIndex) Iterator() *ShapeIndexIterator
 //@   requires vcSI(s) && !vcHeld(&s.mu)
 //@   modifies s.cells, s.cellMap, s.pendingRemovals, s.pendingAdditionsPos, s.status
 //@   ensures [SI] vcSI(s) && s.status == fresh && !vcHeld(&s.mu) && result != nil
+//@   ensures [of-this-index] result.index == s && vcFresh(result)
+//@   ensures [fresh-noop] old(s.status) == fresh ==> vcSame(s.cells, old(s.cells)) && vcSame(s.cellMap, old(s.cellMap))
 
 //@ func (s *ShapeIndex) Begin() *ShapeIndexIterator
 //@   requires vcSI(s) && !vcHeld(&s.mu)
